@@ -606,6 +606,29 @@ def reference_remap_custom(root, visit, enter, exit_):
     return value(root, (), None)
 
 
+def reference_research(root, query, enter, root_too):
+    """what research reports, written as a plain pre-order walk: every item is handed to the query when it is met
+    (a container that enter traverses is met once - later references to it are not entered again), then its
+    items are walked under the extended path; the root does not extend the path"""
+    out = []
+    traversed = set()
+
+    def item(path, key, v, is_root):
+        if kind_of(v) is not None and id(v) in traversed:
+            return
+        if (root_too or not is_root) and query(path, key, v):
+            out.append((path + (key,), v))
+        _np, items = enter(path, key, v)
+        if items is False:
+            return
+        traversed.add(id(v))
+        below = path if is_root else path + (key,)
+        for k, c in list(items):
+            item(below, k, c, False)
+    item((), None, root, True)
+    return out
+
+
 def enter_tok(spec):
     if len(spec) == 1:
         return spec[0]
@@ -982,6 +1005,10 @@ class C08(Property):
                  ([[0, ['isNone'], ['raise', 'IndexError']]], 1), ([[0, ['isKind', 't'], ['setKey', 'k']]], 1)]
         for nodes, root in shapes:
             for en in ENTERS:
+                for prog, rr in progs[:4] + progs[6:8]:
+                    c = self.mk(nodes, root, prog, mode='Q', reraise=rr)
+                    c['enter'] = en
+                    yield c
                 for ex in EXITS:
                     for prog, rr in progs:
                         c = self.mk(nodes, root, prog, mode='E', reraise=rr, default=1 if not prog else 0)
@@ -1166,6 +1193,8 @@ class C08(Property):
         if mode == 'E':
             c['enter'] = rng.choice(ENTERS)
             c['exit'] = rng.choice(EXITS)
+        elif mode == 'Q' and rng.random() < 0.2:
+            c['enter'] = rng.choice(ENTERS)
         if rng.random() < 0.04:
             c['warm'] = self.random_prog(rng)
         return c
@@ -1243,6 +1272,8 @@ class C08(Property):
         prog = case['prog']
         tree = 1 if (is_tree and is_ref(r) and not (case['reraise'] and has_act(prog, 'raise'))) else 0
         mode = case['mode']
+        if mode == 'Q' and case.get('enter', ['dflt']) != ['dflt']:
+            return None        # research with a custom enter callback: oracle-only
         if mode == 'Q' and not self.research_queries_root():
             mode = 'Qn'
         if mode == 'E':
@@ -1363,7 +1394,10 @@ class C08(Property):
                 if keeps_everything(prog) and kind_of(root) is not None:
                     obs['copy_diff'] = tuple_backref_witness(root, res)
             else:
-                found = research(root, query=fn, reraise=bool(reraise))
+                if self._custom['enter'][0] != 'dflt':
+                    found = research(root, query=fn, reraise=bool(reraise), enter=make_enter(self._custom['enter']))
+                else:
+                    found = research(root, query=fn, reraise=bool(reraise))
                 entries = []
                 for path, value in found:
                     shallow = atom_s(value) if kind_of(value) is None else '%s%d' % (LETTER[kind_of(value)], len(value))
@@ -1541,11 +1575,29 @@ class C08(Property):
                     return Failure('deep_copy', 'default remap is not an equal copy: %s -> %s' % (labelled(root), obs['res']))
             return None
         # research
+        if 'enter' in case and make_enter(case['enter'])((), None, root)[1] is False:
+            self.bump('custom_root_not_traversed')
+            return None        # enter does not traverse the root: outside the statement
         if 'exc' in obs:
             self.bump('exc:' + obs['exc'])
             if raising and obs['exc'] in raise_names(prog):
                 return None
             return Failure('raises', 'research raised %s' % obs['exc'])
+        if 'enter' in case and not raising:
+            # the list of reported entries itself, against a plain pre-order walk with the same enter callback
+            self.bump('research_enter:' + case['enter'][0])
+            fn = self.swallowing_false(make_fn(prog))
+            try:
+                exp = reference_research(root, fn, make_enter(case['enter']), self.research_queries_root())
+            except RecursionError:
+                exp = None
+            if exp is not None:
+                exp_t = [('/'.join(key_s(a) for a in path), atom_s(v) if kind_of(v) is None else
+                          '%s%d' % (LETTER[kind_of(v)], len(v))) for path, v in exp if not (v is root)]
+                got_t = [(p, s) for p, s, st, _ in obs['entries'] if st != 'root']
+                if exp_t != got_t:
+                    return Failure('research_entries', 'research with enter=%s reported %s, a pre-order walk with the '
+                                   'same enter callback gives %s' % (case['enter'], got_t[:12], exp_t[:12]))
         set_fail = None
         for p, s, st, into_set in obs['entries']:
             if st in ('root', 'ok'):
@@ -1588,6 +1640,16 @@ class C08(Property):
             return Failure('custom_callbacks', 'remap with enter=%s exit=%s returned %s, the recursive rebuild with the '
                            'same callbacks gives %s' % (case['enter'], case['exit'], got, exp))
         return None
+
+    @staticmethod
+    def swallowing_false(fn):
+        """a query that raises (not re-raised) matches nothing"""
+        def g(p, k, v):
+            try:
+                return fn(p, k, v)
+            except VISIT_EXC:
+                return False
+        return g
 
     @staticmethod
     def swallowing(fn):
@@ -1638,6 +1700,8 @@ class C08(Property):
             # simplified, never removed: a defect that keeps state between calls must stay reproducible from
             # the case alone (without the warm-up call it would fail only in a process that ran other cases)
             yield dict(case, warm=[])
+        if case['mode'] == 'Q' and 'enter' in case and case['enter'] != ['dflt']:
+            yield dict(case, enter=['dflt'])
         if case['mode'] == 'E':
             if case['enter'] != ['dflt']:
                 yield dict(case, enter=['dflt'])
